@@ -40,7 +40,7 @@
 //        Net.RoundStatus  []map[ID]string   per executed round: class per party
 //        Net.Status       map[ID]string     final class per party (first non-ok, else ok)
 //        Net.Reads        []map[ID]int64    bytes each party drew from its reader in that round
-//        Net.FailedRound  0 if every round of every party was ok
+//        Net.FailedRound  0 if every round of every party was ok; -1 if a constructor (or runner) failed
 //        Net.Rng(id)      the party's counting reader (*CountingReader{N})
 //      classes: ok | abort | abort-blame:<sorted,ids> | err:<root-sentinel> | panic | hang
 //      After a round in which some party is not ok the run stops (later rounds are not executed).
@@ -749,6 +749,9 @@ func stepAll[P any, O any](n *Net, round int, parts map[ID]P, f func(id ID, p P)
 	}
 	if !all && n.FailedRound == 0 {
 		n.FailedRound = round
+		if round == 0 {
+			n.FailedRound = -1 // a constructor failed
+		}
 	}
 	n.mu.Unlock()
 	return outs, all
@@ -1025,6 +1028,25 @@ func vvPoints[G any](m interface {
 		out[i], _ = m.Get(i, 0)
 	}
 	return out
+}
+
+// Refused reports that the library declined the configuration with an ordinary error before any
+// message was received (constructor or round 1), as opposed to aborting, panicking or hanging.
+func (n *Net) Refused() bool {
+	if n.FailedRound != -1 && n.FailedRound != 1 {
+		return false
+	}
+	bad := 0
+	for _, s := range n.Status {
+		if s == "ok" {
+			continue
+		}
+		if !strings.HasPrefix(s, "err:") {
+			return false
+		}
+		bad++
+	}
+	return bad > 0
 }
 
 // statusSummary renders the per-round classes, for notes: "r1:ok r2:2=abort-blame:1".
